@@ -323,6 +323,24 @@ PROPS['C12'] = {
     ],
 }
 
+PROPS['C07'] = {
+    'title': 'Euclidean distance is the true minimum distance',
+    'level': 'model_checking',
+    'verus': [],
+    'kani_extra': ['--no-memory-safety-checks', '--no-overflow-checks', '--no-assertion-reach-checks'],
+    'kani': [
+        ('geo', 'c07.rs', r'^c07_k_point_point_row$', 'bounded', 'quick'),
+        ('geo', 'c02.rs', r'^c02_k_(line_coord|line_line)$', 'complete', 'quick'),
+        ('geo', 'c07.rs', r'^c07_k_point_axis_line$', 'bounded', 'thorough'),
+    ],
+    'trusted': ['very partial: exact distance, zero-iff-equal and operand-order / typing invariance for points on one lattice row (quick) and point x axis-parallel segment (thorough), with f64::hypot modelled exactly on axis-parallel arguments',
+                'the "exactly zero precisely when the geometries intersect" clause rests on the `intersects` early-outs of the distance impls: the segment kernels they call (Line x Coord, Line x Line) are decided completely on the lattice by the C02 harnesses listed here'],
+    'undecided_clauses': [
+        'numeric minimality within rounding tolerance (float error analysis; sqrt makes every distance symbolic for SAT: general-position harnesses time out at 900 s)',
+        'every pair that uses the R-tree nearest-neighbour search (LineString / Polygon pairs), hole-containment branch selection, wrapper invariance (Rect / Triangle / Multi* / Geometry enum / GeometryCollection)',
+    ],
+}
+
 NOT_APPLICABLE = {
     'C16': 'every clause is an identity between compositions of sin/cos/atan2/asin/sqrt/tan/ln in f64 (or calls into geographiclib-rs); Verus leaves float arithmetic uninterpreted and CBMC models libm as nondeterministic, so no contract stronger than "returns an f64" is provable',
     'C09': 'no contract within reach decides it: Verus cannot take compute_rdp / visvalingam (iterator adaptor chains, BinaryHeap, R-tree, closures without specs); Kani/CBMC does not finish symbolic execution of simplify on a 3-vertex line string even with a concrete tolerance (measured: > 900 s; the sqrt inside the distance kernel makes every distance symbolic and the recursion then runs over slices of symbolic length). The attempted contract is kept in contracts/kani/geo/c09_rdp.rs',
